@@ -254,6 +254,8 @@ def generate(st):
                     items[g.randrange(n_)] = 'bad'
                 lists.append(items)
             ops.append({'op': 'recursion_try', 'value': stack[0]['value'] if stack[0]['t'] == 'try' else stack[1]['value'], 'decs': stack, 'lists': lists})
+        elif r < 0.826 and 'try' in cfg['decs']:
+            ops.append({'op': 'user_subclass', 'outers': g.sample(['try_none', 'try_zero', 'kwargs_support', 'cache', 'kwargs_support(try_none)'], g.choice([1, 2, 3]))})
         elif r < 0.83 and cfg.get('argpool') and cfg['containers']:
             k_ = g.randrange(3)
             prev_ = [o_ for o_ in ops if o_['op'] == 'call' and any(isinstance(v_, dict) and v_.get('ref') == k_ for v_ in list(o_['pos']) + [v2 for _, v2 in o_['kw']])]
@@ -854,6 +856,31 @@ def execute(trace, ctx=None):
                         raise Violation('fallback', 'f calling itself through its own try wrapper on %r returned %r, expected %r (fallback %r exactly where f raises)'
                                         % (items, got_, exp_, V), k)
                 res.probe('recursion-through-a-try-wrapper')
+            elif kind == 'user_subclass':
+                # the decorators are classes meant to be subclassed: a user's own subclass of one of them is a layer of its own, and
+                # the library's decorators put around it return what IT returns
+                class Tagged(try_value):
+                    def wrapped(self, *args, **kwargs):
+                        return ('tag', super(Tagged, self).wrapped(*args, **kwargs))
+
+                def base_(a, b=1):
+                    if a == 13:
+                        raise SimFError('armed')
+                    return ('F', a, b)
+                g_ = Tagged(value='T')(base_)
+                outers = {'try_none': TRY['none'], 'try_zero': TRY['zero'], 'kwargs_support': kwargs_support, 'cache': cache,
+                          'kwargs_support(try_none)': lambda fn: kwargs_support(TRY['none'](fn))}
+                for nm_ in op['outers']:
+                    h_ = outers[nm_](g_)
+                    for a_ in (1, 13, 1):
+                        try:
+                            got_ = h_(a_, zz=5) if nm_.startswith('kwargs_support') else h_(a_)
+                        except Exception as e:
+                            raise Violation('unexpected-exception', '%s around a user subclass of try_value raised %s: %s' % (nm_, type(e).__name__, e), k)
+                        exp_ = ('tag', 'T') if a_ == 13 else ('tag', ('F', a_, 1))
+                        if got_ != exp_:
+                            raise Violation('not-transparent', '%s(g)(%r) = %r where g, a user subclass of try_value around f, returns %r' % (nm_, a_, got_, exp_), k)
+                res.probe('user-subclass-of-a-decorator')
             elif kind == 'clear':
                 if not (0 <= op['obj'] < len(pool)):
                     continue
